@@ -3,6 +3,8 @@ functions are integer affine maps (shared function objects give multi-member gro
 nesting in collections, duplicates, paths of different lengths, sensors with all pixel shapes /
 handedness / static, translating and rotating paths, pixel_agg, sumup, squeeze — against
 Model/Level2.lean.  Exact integer data, octahedral rotations; outputs compared exactly."""
+import json
+
 import numpy as np
 
 from vlib.driver import run_driver
@@ -71,6 +73,14 @@ def gen_case(rng):
         for s in sensors[1:]:
             s["pixel"], s["shape"] = sensors[0]["pixel"], sensors[0]["shape"]
     agg = rng.choice(["none", "none", "sum", "min", "max"])
+    # inputs the code must reject (C07/C17): no sources, no observers, a collection without sources
+    r = rng.random()
+    if r < 0.015:
+        entries = []
+    elif r < 0.03:
+        sensors = []
+    elif r < 0.06:
+        entries.insert(rng.randrange(len(entries) + 1), rng.choice([{"coll": []}, {"coll": [{"coll": []}, {"coll": []}]}]))
     return {"fs": fs, "entries": entries, "sensors": sensors, "agg": agg, "sumup": rng.random() < 0.3,
             "squeeze": rng.random() < 0.5}
 
@@ -109,7 +119,7 @@ def leaves_in_order(entries):
     return out
 
 
-def model_line(c):
+def model_line(c, df=False):
     pool = leaves_in_order(c["entries"])
     fs = " ".join(fmt_mat(f["A"]) + " " + fmt_vec(f["b"]) for f in c["fs"])
     es = " ".join(enc_entry(e, pool) for e in c["entries"])
@@ -118,7 +128,8 @@ def model_line(c):
         f"{len(flat_pixels(s))} {' '.join(fmt_vec(v) for v in flat_pixels(s))}"
         for s in c["sensors"]
     )
-    return (f"level2 {int(c['sumup'])} {int(c['squeeze'])} {c['agg']} F {len(c['fs'])} {fs} "
+    head = f"df {int(c['sumup'])}" if df else f"{int(c['sumup'])} {int(c['squeeze'])}"
+    return (f"level2 {head} {c['agg']} F {len(c['fs'])} {fs} "
             f"S {len(c['entries'])} {es} K {len(c['sensors'])} {ks}")
 
 
@@ -174,6 +185,61 @@ def real_line(c):
     return "ok shape " + " ".join(map(str, B.shape)) + " | " + " ".join(fmt_vec(v) for v in r.reshape(-1, 3))
 
 
+def real_line_df(c):
+    """output='dataframe' of the same call: index columns and values, one canonical string per row;
+    returns (line, source labels by entry index, sensor labels by sensor index)"""
+    import magpylib as magpy
+    from magpylib._src.exceptions import MagpylibBadUserInput, MagpylibMissingInput
+
+    entries, sensors = build_real(c)
+    # half of the cases carry explicit labels, the other half the default `str(obj)`
+    if c.get("labels", True):
+        seen = {}
+        for o in entries:
+            if id(o) not in seen:
+                seen[id(o)] = f"src-{len(seen)}"
+                o.style.label = seen[id(o)]
+        for j, o in enumerate(sensors):
+            o.style.label = f"sens-{j}"
+        src_labels = [seen[id(o)] for o in entries]
+        sens_labels = [f"sens-{j}" for j in range(len(sensors))]
+    else:
+        src_labels = [str(o) for o in entries]
+        sens_labels = [str(o) for o in sensors]
+    try:
+        df = magpy.getB(entries, sensors, sumup=c["sumup"], squeeze=c["squeeze"],
+                        pixel_agg=None if c["agg"] == "none" else c["agg"], output="dataframe")
+    except MagpylibBadUserInput:
+        return "err BadUserInput", src_labels, sens_labels
+    except MagpylibMissingInput:
+        return "err MissingInput", src_labels, sens_labels
+    except Exception as e:
+        return f"EXC {type(e).__name__}: {str(e)[:120]}", src_labels, sens_labels
+    if list(df.columns) != ["source", "path", "sensor", "pixel", "Bx", "By", "Bz"]:
+        return f"COLUMNS {list(df.columns)}", src_labels, sens_labels
+    vals = df[["Bx", "By", "Bz"]].to_numpy(dtype=float)
+    r = np.rint(vals)
+    if len(vals) and np.max(np.abs(vals - r)) > 1e-6:
+        return "UNSNAPPABLE", src_labels, sens_labels
+    rows = [f"{s}|{int(m)}|{k}|{int(p)}|{fmt_vec(v)}"
+            for s, m, k, p, v in zip(df["source"], df["path"], df["sensor"], df["pixel"], r)]
+    return f"ok df {len(rows)} | " + " ; ".join(rows), src_labels, sens_labels
+
+
+def canon_model_df(m, src_labels, sens_labels):
+    """model rows `S<i>|U<n> m k p x y z` with entry / sensor indices replaced by the labels of
+    the real objects at those indices"""
+    if not m.startswith("ok df "):
+        return m
+    head, _, body = m.partition(" | ")
+    rows = []
+    for row in (body.split(" ; ") if body else []):
+        t = row.split(" ")
+        src = f"sumup ({t[0][1:]})" if t[0][0] == "U" else src_labels[int(t[0][1:])]
+        rows.append(f"{src}|{t[1]}|{sens_labels[int(t[2])]}|{t[3]}|{' '.join(t[4:])}")
+    return head + " | " + " ; ".join(rows)
+
+
 def dup_ok(c):
     """a duplicate inside collections would give one object two parents; the generator only
     allows duplicates at top level or uses override (object then sits in the last collection):
@@ -194,16 +260,34 @@ def dup_ok(c):
 
 def run_stream(ctx, n_cases):
     stats = {"cases": 0, "errors": {}, "agg": {}, "disagreements": 0, "distinct_outputs": 0, "max_leaves": 0,
-             "with_collections": 0, "with_duplicates": 0, "mixed_pixel_shapes": 0, "sumup": 0, "squeeze": 0}
+             "with_collections": 0, "with_duplicates": 0, "mixed_pixel_shapes": 0, "sumup": 0, "squeeze": 0,
+             "degenerate_inputs": 0, "dataframe_cases": 0, "dataframe_rows": 0, "dataframe_sumup_label": 0, "dataframe_errors": 0}
     cases = []
     while len(cases) < n_cases:
         c = gen_case(ctx.rng)
         if dup_ok(c):
             cases.append(c)
+    for c in cases:
+        c["labels"] = ctx.rng.random() < 0.5
     ml = run_driver([model_line(c) for c in cases])
+    mdf = run_driver([model_line(c, df=True) for c in cases])
     seen, samples = set(), []
-    for c, m in zip(cases, ml):
+    for c, m, md in zip(cases, ml, mdf):
         r = real_line(c)
+        # the same call with output="dataframe": index order (itertools.product) and values
+        rd, src_labels, sens_labels = real_line_df(c)
+        md = canon_model_df(md, src_labels, sens_labels)
+        stats["dataframe_cases"] += 1
+        if rd.startswith("ok df "):
+            stats["dataframe_rows"] += int(rd.split(" ")[2])
+            stats["dataframe_sumup_label"] += "sumup (" in rd
+        else:
+            stats["dataframe_errors"] += 1
+        if rd != md:
+            stats["disagreements"] += 1
+            ctx.broken.append({"kind": "correspondence", "name": "level2", "detail": {"case": c, "output": "dataframe", "model": md[:600], "real": rd[:600]}})
+            if stats["disagreements"] >= 3:
+                break
         stats["cases"] += 1
         stats["agg"][c["agg"]] = stats["agg"].get(c["agg"], 0) + 1
         stats["max_leaves"] = max(stats["max_leaves"], len(leaves_in_order(c["entries"])))
@@ -211,6 +295,7 @@ def run_stream(ctx, n_cases):
         stats["with_duplicates"] += "dup" in str(c["entries"])
         stats["mixed_pixel_shapes"] += len({tuple(s["shape"]) for s in c["sensors"]}) > 1
         stats["sumup"] += c["sumup"]
+        stats["degenerate_inputs"] += (not c["entries"]) or (not c["sensors"]) or '"coll": []' in json.dumps(c["entries"])
         stats["squeeze"] += c["squeeze"]
         if r.startswith("err"):
             stats["errors"][r] = stats["errors"].get(r, 0) + 1
